@@ -282,6 +282,17 @@ def copy_discipline(ctx, rep, R):
         rep.check(good, R, key(f, c, "ladder looked up by the order's own (selection, handicap)"), f, c)
         if not good:
             continue
+        # what the matcher receives IS the looked-up entry: no name that makes up the argument is bound a second
+        # time inside the order loop (a per-order rebuild / filter / copy of the ladder is a private ladder again:
+        # what this order consumes is not seen by the next one)
+        arg_names = {x.id for x in ast.walk(c.args[1]) if isinstance(x, ast.Name)}
+        allowed = {id(s_) for s_ in d}
+        rebound = [s_ for s_ in walk_nodes(order_loop.body, (ast.Assign, ast.AugAssign, ast.AnnAssign))
+                   if id(s_) not in allowed and arg_names & {x.id for t in (s_.targets if isinstance(s_, ast.Assign) else [s_.target])
+                                                           for x in ast.walk(t) if isinstance(x, ast.Name)}]
+        fresh = [x for x in ast.walk(c.args[1]) if isinstance(x, (ast.Call, ast.DictComp, ast.ListComp, ast.Dict))]
+        rep.check(not rebound and not fresh, R, key(f, c, "the matcher receives the shared ladder entry itself, not a per-order rebuild"),
+                  f, c, "; ".join(utext(x) for x in rebound + fresh)[:200])
         defs = [s for s in walk_nodes(f.node.body, ast.Assign) if utext(s.targets[0]) == lookup
                 and _dominating(f, s, c)]
         ok = len(defs) == 1
